@@ -20,9 +20,6 @@
 
 using namespace pbt;
 
-static const char *KNOWN_TINY = "json-tiny-double-tolerance";
-static bool g_known_tiny = false;
-
 enum { V_NULL, V_TRUE, V_FALSE, V_NUM, V_STR, V_ARR, V_OBJ, V_CLOSE, V_KEY, V_CHAIN, NKINDS };
 enum { N_RAW, N_DEC15, N_DEC17, N_INT, N_SPECIAL, NNUM };
 
@@ -161,7 +158,7 @@ static Case gen_case() {
     Case c;
     bool deep = chance(2);
     // cfg: 0 build mode (0 API, 1 text), 1 root kind, 2 style seed, 3 prefix length compact, 4 prefix length formatted,
-    //      5 bit0 = keep the numbers of known finding KNOWN_TINY even when it is listed, 6 API variant bits
+    //      5 unused, 6 API variant bits
     c.cfg = {pick(0, 1), weighted({45, 45, 10}), any_u64(), one_of({0, 0, 1, 7, 255, 256, 257, 1000}), pick(0, 40), 0, pick(0, 7)};
     if (deep) {
         // a chain of containers up to the nesting limit, a few values at the bottom and on the way up
@@ -285,7 +282,7 @@ static bool within_2p52(double a, double b) {
     long double m = fmaxl(fabsl((long double)a), fabsl((long double)b));
     return e <= m * 0x1p-52L;
 }
-// where the library's own acceptance test (max*DBL_EPSILON in double arithmetic) rounds because the product is subnormal
+// magnitudes where a tolerance computed as max*DBL_EPSILON in double arithmetic would be a rounded subnormal
 static bool tiny_class(double a) { return a != 0 && fabs(a) < 0x1p-969; }
 
 struct NumStats {
@@ -809,7 +806,7 @@ static struct aws_json_value *build_api(const Node &n, const ApiVariant &av) {
 struct TreeInfo {
     size_t depth = 0, nodes = 0, obj_depth = 0;
     bool esc_string = false, nonint = false, bad_utf8 = false, multibyte = false, ctrl = false, big_int = false, subnormal = false,
-         digits17 = false, long_string = false;
+         digits17 = false, long_string = false, tiny17 = false;
 };
 static void info(const Node &n, size_t d, TreeInfo &ti, size_t od = 0) { // d = number of containers around n, od = objects among them
     ti.nodes++;
@@ -832,22 +829,10 @@ static void info(const Node &n, size_t d, TreeInfo &ti, size_t od = 0) { // d = 
         if (fabs(n.num) > 2147483648.0 && n.num == std::floor(n.num)) ti.big_int = true;
         if (n.num != 0 && fabs(n.num) < DBL_MIN) ti.subnormal = true;
         if (!n.exact15) ti.digits17 = true;
+        if (!n.exact15 && tiny_class(n.num)) ti.tiny17 = true;
     }
     for (auto &k : n.keys) str(k);
     for (auto &k : n.kids) info(k, d + 1, ti, od);
-}
-
-// numbers of the known finding are moved out of its class unless the case asks to keep them
-static void exclude_known(Node &n, bool *excluded) {
-    if (n.type == V_NUM && !n.exact15 && tiny_class(n.num)) {
-        n.num = ldexp(n.num, 300);
-        char buf[48];
-        snprintf(buf, sizeof buf, "%.17g", n.num);
-        n.numtext = buf;
-        n.exact15 = representable15(n.num);
-        *excluded = true;
-    }
-    for (auto &k : n.kids) exclude_known(k, excluded);
 }
 
 static std::string serialise(const struct aws_json_value *v, bool formatted, size_t prefix, const char *what) {
@@ -881,7 +866,6 @@ static void run(const Case &c, Ctx &ctx) {
     unsigned root_kind = (unsigned)(c.c(1) % 3);
     Lcg style{c.c(2) | 1};
     size_t prefix_c = (size_t)(c.c(3) % 1200), prefix_f = (size_t)(c.c(4) % 64);
-    bool keep_known = c.c(5) & 1;
     ApiVariant av{(c.c(6) & 1) != 0, (c.c(6) & 2) != 0};
 
     // ---- model tree from the op list (every op list is a valid description)
@@ -980,10 +964,6 @@ static void run(const Case &c, Ctx &ctx) {
         }
     }
     if (!have_root) root.type = V_NULL;
-
-    bool excluded = false;
-    if (g_known_tiny && !keep_known) exclude_known(root, &excluded);
-    if (excluded) ctx.tag("known_finding_numbers_moved");
 
     TreeInfo ti;
     info(root, 0, ti);
@@ -1094,6 +1074,7 @@ static void run(const Case &c, Ctx &ctx) {
     if (ti.big_int) ctx.tag("integer_beyond_2p31");
     if (ti.subnormal) ctx.tag("subnormal");
     if (ti.digits17) ctx.tag("number_needing_17_digits");
+    if (ti.tiny17) ctx.tag("number_needing_17_digits_below_2p-969");
     if (ns.inexact_seen) ctx.tag("number_changed_within_tolerance");
     if (ti.long_string) ctx.tag("string_over_120_bytes");
     if (ti.depth >= 900) ctx.tag("depth_ge_900");
@@ -1116,12 +1097,6 @@ int main(int argc, char **argv) {
                 execv("/proc/self/exe", argv);
             }
         }
-    }
-    for (const char *var : {"VERIF_KNOWN", "VERIF_KNOWN_EXTRA"}) { // the second one is a development aid (the driver sets the first)
-        const char *k = getenv(var);
-        if (!k) continue;
-        std::string s = std::string(",") + k + ",";
-        if (s.find(std::string(",") + KNOWN_TINY + ",") != std::string::npos) g_known_tiny = true;
     }
     aws_common_library_init(galloc::full()); // the JSON module takes its allocator here: every cJSON block goes through galloc
     Spec sp{"C11", "c11_json_tree", gen_case, run,
